@@ -25,6 +25,7 @@ type cfg struct {
 	deferred bool  // SubscribeForFilter: seq[0] is supplied by the first Refilter (which makes it ready), after the node has seen its parent ready
 	content  int   // 0..8: a in {absent,l=0,l=1} x b in {absent,l=0,l=1}
 	seq      []int // filters: seq[0] initial, then Refilter(seq[1]), Refilter(seq[2])
+	b2b      bool  // the Refilter calls after the first are issued back to back, one barrier at the end
 }
 
 func objects(content int) []metav1.Object {
@@ -34,11 +35,13 @@ func objects(content int) []metav1.Object {
 		if k == 1 {
 			x = content / 3
 		}
+		// b carries resourceVersion "0" (legal, and the zero value of a version): membership must not depend on it
+		rv := []string{"1", "0"}[k]
 		switch x % 3 {
 		case 1:
-			out = append(out, hx.Pod("ns", name, "1", "l=0"))
+			out = append(out, hx.Pod("ns", name, rv, "l=0"))
 		case 2:
-			out = append(out, hx.Pod("ns", name, "1", "l=1"))
+			out = append(out, hx.Pod("ns", name, rv, "l=1"))
 		}
 	}
 	return out
@@ -94,6 +97,20 @@ func (in *inst) run() {
 	st.events = append([]string{}, n.Received[seen:]...)
 	seen = len(n.Received)
 	in.steps = append(in.steps, st)
+	if in.c.b2b {
+		// no quiescence between the calls: they must still take effect in call order
+		for _, f := range in.c.seq[1:] {
+			if err := n.Refilter(hx.MkFilter(f)); err != nil {
+				in.steps = append(in.steps, step{err: err.Error()})
+				return
+			}
+		}
+		st := barrier()
+		st.events = append([]string{}, n.Received[seen:]...)
+		in.steps = append(in.steps, st)
+		in.done = true
+		return
+	}
 	for _, f := range in.c.seq[1:] {
 		if err := n.Refilter(hx.MkFilter(f)); err != nil {
 			in.steps = append(in.steps, step{err: err.Error()})
@@ -123,6 +140,23 @@ func (in *inst) check(r *vs.Result) []string {
 	desc := fmt.Sprintf("parent %s, filters %v", hx.ListString(objects(c.content)), names(c.seq))
 	if !in.done {
 		return []string{fmt.Sprintf("hang | %s: Refilter sequence did not complete (ready=%v, steps %v)", desc, in.ready, in.steps)}
+	}
+	if c.b2b {
+		// judged at the end only: the view is the last filter's, and the events received since the first view fold
+		// over that first view into it, without an ill-formed step
+		last := c.seq[len(c.seq)-1]
+		want := hx.ListString(view(c.content, last))
+		if len(in.steps) != 2 {
+			return []string{fmt.Sprintf("hang | %s: back-to-back sequence incomplete", desc)}
+		}
+		if in.steps[1].list != want {
+			msgs = append(msgs, fmt.Sprintf("back-to-back Refilter calls not applied in call order | %s: at quiescence the cache holds %s, the last filter %s gives %s", desc, in.steps[1].list, hx.FilterNames[last], want))
+		}
+		got, ill := hx.Mirror(view(c.content, c.seq[0]), in.steps[1].events)
+		if got != in.steps[1].list || len(ill) > 0 {
+			msgs = append(msgs, fmt.Sprintf("back-to-back Refilter events do not account for the view | %s: events %v over the first view give %s (ill-formed: %v), the cache holds %s", desc, in.steps[1].events, got, ill, in.steps[1].list))
+		}
+		return msgs
 	}
 	for i, st := range in.steps {
 		f := c.seq[i]
@@ -184,7 +218,7 @@ func Property() runner.Property {
 	return runner.Property{
 		ID:          "C07",
 		Level:       "model_checking",
-		Rule:        "all 9 parent contents over 2 keys x {absent, l=0, l=1} x all ordered pairs (quick) and triples (thorough) of the filter family {Null, All, l=1, l=0, name=a, FN(l==1), And(l=1,name=a), And(l=1,name=b), NSName(a,b), NSName(a, ns/*)} (equal, overlapping, widening by a full id / by a wildcard id, disjoint, accept-all, accept-none, rebuilt-equal, non-comparable); a ready SubscribeWithFilter node (and, on two contents, a SubscribeForFilter node made ready by its first Refilter) over an idle parent; one Refilter between two quiescence barriers; every interleaving inside each call (S1); oracle: exactly one Delete per cached object the new filter rejects, one Create per parent object newly accepted, nothing else; equal filter: no event, cache unchanged; A->B->A restores A's view",
+		Rule:        "all 9 parent contents over 2 keys x {absent, l=0, l=1} x all ordered pairs (quick) and triples (thorough) of the filter family {Null, All, l=1, l=0, name=a, FN(l==1), And(l=1,name=a), And(l=1,name=b), NSName(a,b), NSName(a, ns/*)} (equal, overlapping, widening by a full id / by a wildcard id, disjoint, accept-all, accept-none, rebuilt-equal, non-comparable); a ready SubscribeWithFilter node (and, on two contents, a SubscribeForFilter node made ready by its first Refilter) over an idle parent; one Refilter between two quiescence barriers; every interleaving inside each call (S1); plus triples issued back to back (one barrier at the end: last filter's view, events fold into it); oracle: exactly one Delete per cached object the new filter rejects, one Create per parent object newly accepted, nothing else; equal filter: no event, cache unchanged; A->B->A restores A's view",
 		Assumptions: []string{"premise of the property: subscription ready and no parent events in flight (barrier = quiescence, decided by the scheduler, not by sleeping)"},
 		Scenarios: func(tier string) []runner.Sc {
 			var out []runner.Sc
@@ -200,6 +234,27 @@ func Property() runner.Property {
 					} else {
 						for c := 0; c < nf; c++ {
 							seqs = append(seqs, []int{a, b, c})
+						}
+					}
+				}
+			}
+			// back-to-back triples (no barrier between the calls) on two contents
+			for _, content := range []int{5, 8} {
+				for a := 0; a < nf; a++ {
+					for b := 0; b < nf; b++ {
+						for c3 := 0; c3 < nf; c3++ {
+							if tier != "thorough" && !(a < 5 && b < 5 && c3 < 5) {
+								continue
+							}
+							c := cfg{content: content, seq: []int{a, b, c3}, b2b: true}
+							out = append(out, runner.Sc{Scenario: explore.Scenario{
+								Name: fmt.Sprintf("c07/fsub-back-to-back/content%d/%s", content, strings.Join(names(c.seq), ">")), Mode: "S1",
+								Cfg: vs.Config{Timers: vs.TimersIdle, MaxSteps: 100000},
+								New: func() explore.Instance {
+									in := &inst{c: c}
+									return explore.Instance{Run: in.run, Check: in.check, Outcome: in.outcome}
+								},
+							}})
 						}
 					}
 				}
